@@ -38,6 +38,8 @@ pub struct Profile {
     pub marker_round_robin: bool,
     /// share of worlds that start with a large seeded bid book (more than 30 bids)
     pub p_bulk_book: f64,
+    /// share of runs that start with a fill steered onto a (near-)tie of the pro-rata fee
+    pub p_near_tie: f64,
 }
 
 impl Profile {
@@ -67,6 +69,7 @@ impl Profile {
             many_orders: false,
             marker_round_robin: false,
             p_bulk_book: 0.0,
+            p_near_tie: 0.02,
         }
     }
     pub fn for_property(p: &str) -> Profile {
@@ -99,6 +102,7 @@ impl Profile {
                 f.p_role_overlap = 0.6;
             }
             "C06" => {
+                f.p_bulk_book = 0.004;
                 f.p_nonlot = 0.6;
                 f.p_legacy_seed = 0.5;
                 f.p_migrate_run = 0.2;
@@ -116,6 +120,7 @@ impl Profile {
                 f.p_mutate = 0.25;
             }
             "C09" => {
+                f.p_near_tie = 0.2;
                 f.p_fee_bid = 0.95;
                 f.p_fee_ask = 0.8;
                 f.p_tie_rates = 0.7;
@@ -415,6 +420,11 @@ pub fn gen_world(seed: u64, run: u64, prof: &Profile) -> WorldGen {
         }
         attrs.insert(acc.clone(), have);
     }
+    if r.chance(0.05) && m.get("ask_fee_rate").is_some() {
+        // both sides charge the same fee to the same account
+        m["bid_fee_rate"] = m["ask_fee_rate"].clone();
+        m["bid_fee_account"] = m["ask_fee_account"].clone();
+    }
     if r.chance(0.04) {
         // legal: a contract without approvers (convertible asks can then never be approved)
         m["approvers"] = json!([]);
@@ -567,6 +577,12 @@ fn mutate_instantiate(m: &mut Value, r: &mut Rng, accounts: &[String]) {
             }
             11 => match r.below(3) {
                 0 => m["convertible_base_denoms"] = json!([]),
+                1 if r.chance(0.5) => {
+                    // denominations are case-sensitive strings
+                    let mut qd: Vec<String> = serde_json::from_value(m["supported_quote_denoms"].clone()).unwrap_or_default();
+                    qd.push("ibc/27A6394C3F9FF9C9DCF5DFFADF9BB5FE9A37C7E92B006199894CF1A350F9F0BC".to_string());
+                    m["supported_quote_denoms"] = json!(qd);
+                }
                 1 => {
                     // the only quote denomination is the base denomination itself
                     let b = m["base_denom"].clone();
@@ -708,6 +724,90 @@ pub fn gen_px(wg: &WorldGen, r: &mut Rng, side: i32) -> Px {
     Px { units, d }
 }
 
+/// A bid and a fill chosen so that the fee the bid must keep afterwards, fee x remaining / quote,
+/// lands on an exact half unit or within a chosen distance below / above it (several scales, so that
+/// an extra rounding step at any number of decimals is crossed). All through ordinary requests.
+fn near_tie_prefix(sim: &Sim, r: &mut Rng) -> Vec<(String, Vec<CoinS>, Value)> {
+    let cfg = &sim.cfg;
+    let fee = match &cfg.bid_fee {
+        Some(f) => f,
+        None => return vec![],
+    };
+    if cfg.precision != 0 || cfg.increment != 1 || !cfg.ask_attrs.is_empty() || !cfg.bid_attrs.is_empty() || cfg.executors.is_empty() {
+        return vec![];
+    }
+    let quote = cfg.quotes[0].clone();
+    let base = cfg.base_denom.clone();
+    let accounts: Vec<&String> = sim.spec.accounts.iter().filter(|a| !a.starts_with("fee_") && a.as_str() != "stranger").collect();
+    if accounts.len() < 2 {
+        return vec![];
+    }
+    let buyer = accounts[0].clone();
+    let seller = accounts[1].clone();
+    let e = r.range(6, 15) as u32;
+    let mut q = 10u128.pow(e) + r.below(10u64.pow(e.min(18))) as u128;
+    let mut f = 0u128;
+    let gcd = |mut a: u128, mut b: u128| {
+        while b != 0 {
+            let t = a % b;
+            a = b;
+            b = t;
+        }
+        a
+    };
+    let mut ok = false;
+    for _ in 0..60 {
+        f = fee_amount(&fee.rate, q).unwrap_or(0);
+        if f >= 1 && f < q && gcd(f, q) == 1 {
+            ok = true;
+            break;
+        }
+        q += 1;
+    }
+    if !ok {
+        return vec![];
+    }
+    // modular inverse of f modulo q (extended Euclid on signed 128-bit values; q <= 2e15)
+    let (mut old_r, mut rr) = (f as i128, q as i128);
+    let (mut old_s, mut ss) = (1i128, 0i128);
+    while rr != 0 {
+        let k = old_r / rr;
+        let t = old_r - k * rr;
+        old_r = rr;
+        rr = t;
+        let t2 = old_s - k * ss;
+        old_s = ss;
+        ss = t2;
+    }
+    let inv = ((old_s % q as i128) + q as i128) as u128 % q;
+    let scales: [u128; 7] = [0, 1, 2, q / 10u128.pow(13), q / 10u128.pow(10), q / 10u128.pow(7), q / 10u128.pow(4)];
+    let d = *r.pick(&scales);
+    let half = q / 2;
+    let t = if r.chance(0.5) { half.saturating_sub(d) } else { (half + 1 + d).min(q - 1) };
+    let rem = (t % q) * inv % q; // f * rem = t (mod q)
+    let s_fill = q - rem;
+    if s_fill == 0 || s_fill > q {
+        return vec![];
+    }
+    let bid_id = r.uuid();
+    let ask_id = r.uuid();
+    let bfunds = if restricted(sim, &quote) { vec![] } else { vec![CoinS::new(q + f, &quote)] };
+    let afunds = if restricted(sim, &base) { vec![] } else { vec![CoinS::new(s_fill, &base)] };
+    vec![
+        (
+            buyer,
+            bfunds,
+            json!({"create_bid": {"id": bid_id, "base": base, "fee": {"denom": quote, "amount": f.to_string()}, "price": "1", "quote": quote, "quote_size": q.to_string(), "size": q.to_string()}}),
+        ),
+        (seller, afunds, json!({"create_ask": {"id": ask_id, "base": base, "quote": quote, "price": "1", "size": s_fill.to_string()}})),
+        (
+            cfg.executors[0].clone(),
+            vec![],
+            json!({"execute_match": {"ask_id": ask_id, "bid_id": bid_id, "price": "1", "size": s_fill.to_string()}}),
+        ),
+    ]
+}
+
 // ------------------------------------------------------------------ the run
 
 pub struct Pending {
@@ -845,6 +945,16 @@ pub fn run_one(seed: u64, run: u64, prof: &Profile, enabled: Enabled, want_sampl
         }};
     }
 
+    if ra.chance(prof.p_near_tie) {
+        let pre = near_tie_prefix(&sim, &mut ra);
+        if !pre.is_empty() {
+            sim.cov.probe("near_tie_directed_fill");
+        }
+        for (sender, funds, msg) in pre {
+            apply!(Step::Exec { sender, funds, msg, faults: TxFaults::default() });
+            delivered += 1;
+        }
+    }
     while delivered < prof.max_steps && block < (prof.max_steps as u64) * 3 {
         block += 1;
         // ---- parties submit
@@ -973,7 +1083,7 @@ pub fn run_one(seed: u64, run: u64, prof: &Profile, enabled: Enabled, want_sampl
 fn gen_migrate(sim: &Sim, r: &mut Rng, prof: &Profile) -> Step {
     let versions = [
         "0.15.0", "0.16.1", "0.16.2", "0.16.3", "0.17.3", "0.18.2", "0.19.0", "0.19.1", "0.19.2", "1.0.0", "1.0.1", "2.3.4",
-        "", "abc", "0.16", "v0.17.0", "0.16.02", "0.17.0-rc1", "0.16.2-rc.1", "0.16.1-beta", "0.15.0-alpha.1", "1.0.0+build5", "<absent>", "<garbage>", "<nodef>0.17.0", "<nodef>1.0.0", "0.19.0+hotfix.1", "0.17.3+b1", "0.16.2+x", "0.19.1+meta",
+        "", "abc", "0.16", "v0.17.0", "0.16.02", "0.17.0-rc1", "0.16.2-rc.1", "0.16.1-beta", "0.15.0-alpha.1", "1.0.0+build5", "<absent>", "<garbage>", "<nodef>0.17.0", "<nodef>1.0.0", "0.19.0+hotfix.1", "0.17.3+b1", "0.16.2+x", "0.19.1+meta", "0.18.2\n", "1.0.0 ", " 0.18.2",
     ];
     let set_version = if r.chance(0.12) {
         None
@@ -1029,7 +1139,11 @@ fn gen_migrate(sim: &Sim, r: &mut Rng, prof: &Profile) -> Step {
             }
         }
         if r.chance(0.2) {
-            let l: Vec<&str> = if r.chance(0.5) { vec![] } else { vec!["ask.kyc"] };
+            let l: Vec<&str> = match r.below(4) {
+                0 | 1 => vec![],
+                2 => vec!["ask.kyc"],
+                _ => vec!["KYC.Verified", "ask.kyc"],
+            };
             m[format!("{}_required_attributes", side)] = json!(l);
         }
     }
@@ -1165,6 +1279,9 @@ fn decide(
                 if size == 0 {
                     size = inc;
                 }
+            }
+            if whale && inc > 1 && r.chance(0.3) {
+                size += 1 + r.below((inc - 1).min(u64::MAX as u128) as u64) as u128;
             }
             let mut id = r.uuid();
             let mut funds = if restricted(sim, &base) { vec![] } else { vec![CoinS::new(size, &base)] };
@@ -1685,6 +1802,13 @@ fn gen_modify(sim: &Sim, cfg: &Cfg, r: &mut Rng, accounts: &[String]) -> (String
                 _ => vec!["bid.kyc".into(), "ask.kyc".into()],
             };
             m[format!("{}_required_attributes", side)] = json!(l);
+        }
+    }
+    if r.chance(0.1) {
+        // the same pair supplied for both sides
+        if let (Some(rt), Some(ac)) = (m.get("ask_fee_rate").cloned(), m.get("ask_fee_account").cloned()) {
+            m["bid_fee_rate"] = rt;
+            m["bid_fee_account"] = ac;
         }
     }
     let _ = sim;
